@@ -184,7 +184,7 @@ class KernelFacts:
             loopvars[lv] = (unparse(lp.init.value), unparse(lp.cond.comparators[0]), isinstance(lp.cond.ops[0], ast.Lt), lp.line)
         # scalar copies  g = G[i]
         copies = {}
-        for st in inner:
+        for st in [s_ for lp in loops for s_ in lp.body] if loops else inner:       # at any level of the nest (a coordinate may be hoisted)
             if isinstance(st, CAssign) and isinstance(st.target, ast.Name) and isinstance(st.value, ast.Subscript) and st.op == '=':
                 copies[st.target.id] = (unparse(st.value.value), unparse(st.value.slice))
         # map loop variable -> axis by the grid it indexes (scalar copies and boundary guards)
